@@ -221,6 +221,41 @@ def gen_cond(rng, name, view):
         return {}
     raise ValueError(name)
 
+NAN_KEYS = ("tolerance", "xtol", "ftol", "gtol", "target", "fval", "seconds")
+
+def numpyfy(rng, cond, p_np=0.3, p_nan=0.06):
+    """settings given as numpy scalars (numpy.float64 / numpy.int64 / elements of numpy arrays) and nan settings:
+    their repr in the doc string is np.float64(..)/np.int64(..)/nan, which mystic.termination.state must eval back.
+    The VALUES are unchanged (the model sees the same numbers); cond["np"] = {key: how} records the wrapping."""
+    kw = cond["kw"]
+    if rng.random() < p_nan:
+        ks = [k for k in NAN_KEYS if isinstance(kw.get(k), float)]
+        if ks:
+            kw[rng.choice(ks)] = math.nan
+    if rng.random() < p_np:
+        ks = [k for k, v in kw.items() if v is not None and not isinstance(v, bool) and isinstance(v, (int, float))]
+        how = {}
+        for k in ks:
+            if rng.random() < 0.7:
+                how[k] = rng.choice(["scalar", "scalar", "elem"])
+        if how:
+            cond["np"] = how
+    return cond
+
+def make_kwargs(cond):
+    """the keyword arguments actually passed to the factory"""
+    import numpy
+    kw = dict(cond["kw"])
+    for k, how in (cond.get("np") or {}).items():
+        v = kw.get(k)
+        if v is None or isinstance(v, bool):
+            continue
+        if isinstance(v, int):
+            kw[k] = numpy.int64(v) if how == "scalar" else numpy.array([v, 0], dtype=numpy.int64)[0]
+        else:
+            kw[k] = numpy.float64(v) if how == "scalar" else numpy.array([v, 0.0], dtype=float)[0]
+    return kw
+
 def approx_grad(view):
     """mystic._scipy060optimize.approx_fprime on the linear cost the stub carries (same operations)"""
     import numpy
@@ -314,6 +349,13 @@ def witnesses():
     yield two(["N", "Or", [["N", "Or", [la, lb]], ["N", "And", [la, lb]]]])
     yield two(["N", "And", [["N", "Or", []], ["N", "And", []]]])
     yield two(["N", "When", [["N", "And", [la, la]]]])
+    # settings given as numpy scalars / nan: state() must eval their repr (np.float64(..), np.int64(..), nan) back
+    yield one(V(), dict(f="VTR", kw=dict(tolerance=0.5, target=1.0), np=dict(tolerance="scalar", target="elem")))
+    yield one(V(), dict(f="ChangeOverGeneration", kw=dict(tolerance=1e-6, generations=1), np=dict(generations="scalar")))
+    yield one(V(), dict(f="EvaluationLimits", kw=dict(generations=3, evaluations=None), np=dict(generations="elem")))
+    yield one(V(), L("VTR", tolerance=math.nan, target=1.0))
+    yield dict(kind="witness", view=V(), tree=["N", "Or", [["N", "And", [la, lb]], ["L", 2]]],
+               conds=[dict(a, np=dict(tolerance="scalar")), b, L("NormalizedCostTarget", fval=math.nan, tolerance=1e-6, generations=1)])
 
 def generate(rng, n, tier):
     for w in witnesses():
@@ -323,7 +365,7 @@ def generate(rng, n, tier):
     for i in range(nleaf):
         name = FACTORIES[i % len(FACTORIES)] if rng.random() < 0.5 else rng.choice(HIST_CONDS)
         view = gen_view(rng, focus=name)
-        yield dict(kind="leaf", view=view, conds=[dict(f=name, kw=gen_cond(rng, name, view))], tree=["L", 0])
+        yield dict(kind="leaf", view=view, conds=[numpyfy(rng, dict(f=name, kw=gen_cond(rng, name, view)))], tree=["L", 0])
     p = dict(flat=0.08, empty=0.04)
     for i in range(ntree):
         view = gen_view(rng)
@@ -331,7 +373,7 @@ def generate(rng, n, tier):
         pool = []
         for _ in range(nl):
             name = rng.choice(FACTORIES + HIST_CONDS + ["VTR", "EvaluationLimits", "SolverInterrupt"])
-            pool.append(dict(f=name, kw=gen_cond(rng, name, view)))
+            pool.append(numpyfy(rng, dict(f=name, kw=gen_cond(rng, name, view)), p_np=0.2, p_nan=0.04))
         t = gen_tree(rng, list(range(nl)), rng.choice([1, 2, 2, 3, 3, 4]), p)
         if t[0] == "L":
             t = ["N", rng.choice(["And", "Or", "When"]), [t]]
@@ -387,7 +429,7 @@ def _canon_kw(kw):
         elif isinstance(v, int):
             out[k] = int(v)
         else:
-            out[k] = float(v)
+            out[k] = "nan" if float(v) != float(v) else float(v)
     return out
 
 def construct(T, expr, leaves):
@@ -448,7 +490,7 @@ def run_impl(case):
         with contextlib.redirect_stdout(buf), warnings.catch_warnings(), numpy.errstate(all="ignore"):
             warnings.simplefilter("ignore")
             stub = make_stub(view)
-            leaves = [getattr(T, c["f"])(**c["kw"]) for c in case["conds"]]
+            leaves = [getattr(T, c["f"])(**make_kwargs(c)) for c in case["conds"]]
             ident = {id(l): k for k, l in enumerate(leaves)}
             out["docs"] = [l.__doc__ for l in leaves]
             try:
@@ -552,6 +594,8 @@ def documented(c, view):
     """(expected, note): expected in {True, False, None=no claim}; note names the clause of the documentation used"""
     f, kw = c["f"], c["kw"]
     h = view["hist"]
+    if any(isinstance(v, float) and v != v for v in kw.values()):
+        return None, "nan setting"
     if f in HIST_CONDS and not h:
         return False, "empty history"
     if f == "VTR":
@@ -864,6 +908,10 @@ def classify(case, obs):
     nontriv = bool(view["hist"]) or bool(view["pop"])
     if "__exception__" in obs:
         return json.dumps(case, sort_keys=True), False, tags + ["driver-exception"]
+    if any(c.get("np") for c in case["conds"]):
+        tags.append("settings:numpy-scalars")
+    if any(isinstance(v, float) and v != v for c in case["conds"] for v in c["kw"].values()):
+        tags.append("settings:nan")
     for k, c in enumerate(case["conds"]):
         oc = leaf_outcome(obs["leaf"][k], obs["docs"][k])
         if case["tree"][0] == "L":
@@ -880,7 +928,7 @@ def classify(case, obs):
                                          "len-1" if gi == n - 1 else ">len" if gi > n else "inside"))
             tol = [v for kk, v in c["kw"].items() if "tol" in kk and isinstance(v, float)]
             for v in tol[:1]:
-                tags.append("tol:" + ("neg" if v < 0 else "0" if v == 0 else "inf" if math.isinf(v) else "tiny" if v < 1e-100 else "huge" if v > 1e100 else "mid"))
+                tags.append("tol:" + ("nan" if v != v else "neg" if v < 0 else "0" if v == 0 else "inf" if math.isinf(v) else "tiny" if v < 1e-100 else "huge" if v > 1e100 else "mid"))
     if case["tree"][0] != "L":
         sk = obs.get("skeleton")
         if isinstance(sk, list):
